@@ -62,7 +62,9 @@ def call(ctx, t, op, sid, fn, sock=None):
     ctx.incall[t] = True
     try:
         v = fn()
-        bad = v is None and op == "recv" or v is False and op == "poll_recv"
+        # recv() -> None and poll("recv") -> False/None (DataLinkConnection.poll falls through to None when the
+        # socket was shut down while it waited) are the documented "nothing will arrive any more" results
+        bad = v is None and op in ("recv", "poll_recv") or v is False and op == "poll_recv"
         r = ("ok", "error" if bad else "data")
         return v
     except nfc.llcp.Error as e:
